@@ -20,6 +20,7 @@ RULE = (
     "per case also the constructor rules (mixed plate rejected, observations without mask, neither, mask without observations) and set_observed on a drawn "
     "selection. Non-trivial = history with >=2 reveals of which one touches an already observed or unknown id. distinct = distinct case JSON."
     ' Also: histories during which 140 .. 1100 other screens are built and kept alive; one history in sixty has 40..70 operations.'
+    ' After a refused command-line reveal the input archive is loaded again and compared.'
 )
 ASSUMPTIONS = [
     "a reveal is expected to refuse exactly when the stored values of the selected rows are all zero (incl. the empty selection) or contain NaN - the two guards the statement names",
@@ -267,6 +268,14 @@ def check_case(case):
                 except ValueError as e:
                     require(refuse, kind + ".unexpected_refusal", lambda: "reveal of %r refused (%s) although the selected values %r are neither all zero nor NaN" % (ids, e, vals.tolist()))
                     _check_state(cur, sc, frozen, model, kind + ".after_refusal")
+                    if kind == "cli_reveal":
+                        # a refused reveal changes nothing on disk either: the input archive (which in the in-place mode is also the
+                        # output path) still holds the screen as it was
+                        try:
+                            on_disk = Screen.load_h5(p)
+                        except (OSError, KeyError) as e2:
+                            raise Violation(kind + ".after_refusal.archive", "after a refused reveal_plate (ids %r) the screen archive %s can no longer be loaded: %r" % (ids, "that was both --screen and --output" if o == p else "given as --screen", e2))
+                        _check_state(on_disk, sc, frozen, model, kind + ".after_refusal.archive")
                     continue
                 require(not refuse, kind + ".missing_refusal", lambda: "reveal of %r accepted although the selected stored values are %r" % (ids, vals.tolist()))
                 cur = new
